@@ -3,8 +3,8 @@
 (* refuses it or produces a file, Load reads the file.                                    *)
 (*   mode "table":     every combination of variances / dimensions / masks / coordinates  *)
 (*                     / requested coordinate / bin edges (1 row, default header)         *)
-(*   mode "roundtrip": every header of length <= MaxHeader over {a, #, LF, SP, digit} and *)
-(*                     1..MaxRows rows for writable configurations                        *)
+(*   mode "roundtrip": every header of length <= MaxHeader over {a, #, LF, SP, digit, CR}  *)
+(*                     and 1..MaxRows rows for writable configurations                        *)
 EXTENDS XyeDefs
 
 CONSTANTS MaxHeader, MaxRows,
@@ -14,7 +14,7 @@ CONSTANTS MaxHeader, MaxRows,
 VARIABLES cfg, phase, out, loaded
 vars == <<cfg, phase, out, loaded>>
 
-HeaderSyms == {CA, CHASH, CLF, CSP, CDIG}
+HeaderSyms == {CA, CHASH, CLF, CSP, CDIG, CCR}
 Headers == UNION { [1..n -> HeaderSyms] : n \in 0..MaxHeader } \cup { <<-1>> }
 CoordSets == SUBSET {0, 1, 2, 3, 4}
 
